@@ -70,6 +70,21 @@ theorem join_restore (c : JoinCfg) (windowNs : Int) (j : JoinSt) (h : j.WF) :
     (decJoin (wire (encJoin (j.ckpt c)))).map (JoinSt.restore windowNs) = some j := by
   rw [wire_clean _ (clean_encJoin _), decJoin_encJoin]; simp [join_rt c windowNs j h]
 
+/-! ## distinct, limit -/
+
+/-- `.distinct()`: the LRU key order comes back (`Nodup`: an LRU map has no duplicate keys), so
+every continuation of keys is filtered identically -/
+theorem distinct_obs_equiv (seen : List String) (h : seen.Nodup) (keys : List String) :
+    (decDistinct (wire (encDistinct (distinctCkpt seen)))).map (fun c => runOps distinctStep (distinctRestore c) keys)
+      = some (runOps distinctStep seen keys) := by
+  rw [wire_clean _ (clean_encDistinct _), decDistinct_encDistinct]
+  simp [distinct_rt seen h]
+
+/-- `.limit(n)` / `.first()`: the counter comes back, every continuation passes the same events -/
+theorem limit_obs_equiv (l : Nat × Nat) (batches : List Nat) :
+    (decLimit (wire (encLimit l))).map (fun c => runOps limitStep c batches) = some (runOps limitStep l batches) := by
+  rw [wire_clean _ (clean_encLimit _), decLimit_encLimit]; rfl
+
 /-! ## the engine -/
 
 /-- C19, engine level: checkpoint → JSON → freshly loaded engine → restore yields a state that is
